@@ -2,7 +2,8 @@
 From LV Require Import Base FS FSFacts LayerShared.
 
 Inductive c11_op := OpDeleteLayer | OpRdr | OpRecreate    (* OpRecreate: BuildContext::uncached_layer on the layer *)
-                  | OpReadLayer.                           (* shared::read_layer through the hook *)
+                  | OpReadLayer                            (* shared::read_layer through the hook *)
+                  | OpWriteLayer | OpReplaceTypes.         (* shared::write_layer / replace_layer_types through the hooks *)
 Inductive c11_res := ROk | RErrno (e : errno) | ROther.
 
 Record case := mkCase {
@@ -19,7 +20,8 @@ Definition owned_of (c : case) : path -> bool :=
   match c_op c with
   | OpDeleteLayer | OpRecreate => owned spec_sbom_suffixes (c_layers c) (c_name c)
   | OpRdr => is_prefix (c_layers c ++ [c_name c])
-  | OpReadLayer => path_eqb (c_layers c ++ [toml_name (c_name c)])
+  | OpReadLayer | OpReplaceTypes => path_eqb (c_layers c ++ [toml_name (c_name c)])
+  | OpWriteLayer => fun q => path_eqb (c_layers c ++ [c_name c]) q || path_eqb (c_layers c ++ [toml_name (c_name c)]) q
   end.
 
 (* every file, directory, permission and link target outside the layer is exactly as before
@@ -30,6 +32,7 @@ Definition spec_run (c : case) : fs * result errno unit :=
   | OpDeleteLayer | OpRecreate => delete_layer true true spec_sbom_suffixes (c_layers c) (c_name c) (c_pre c)
   | OpRdr => remove_dir_recursively true (rdr_fuel (c_pre c)) (c_layers c ++ [c_name c]) (c_pre c)
   | OpReadLayer => (c_pre c, Ok tt)      (* judged by read_effect_ok below *)
+  | OpWriteLayer | OpReplaceTypes => (c_pre c, Ok tt)      (* call-level comparison only: C11Agree *)
   end.
 
 (* the conclusion of c11_read_layer_effect, read off the observed directories: nothing changed, or the
@@ -47,6 +50,15 @@ Definition read_effect_ok (c : case) : bool :=
    the specified operation removes (whatever its permissions and symlinks) IS removed: the call must
    not fail where the specification succeeds *)
 Definition holds (c : case) : bool :=
+  match c_op c with
+  | OpWriteLayer | OpReplaceTypes =>
+      (* fs::write follows a link standing at <name>.toml (in the library these functions run after delete_layer
+         or read_layer, which leave no link there): the frame is judged where the path is not a link *)
+      match pget (c_layers c ++ [toml_name (c_name c)]) (c_pre c) with
+      | Some (Link _) => true
+      | _ => frame_chk (owned_of c) (c_pre c) (c_post c)
+      end
+  | _ =>
   frame_chk (owned_of c) (c_pre c) (c_post c) &&
   match c_res c, c_op c with
   | _, OpReadLayer => read_effect_ok c
@@ -60,6 +72,7 @@ Definition holds (c : case) : bool :=
   | ROk, _ => forallb (fun kv => negb (owned_of c (fst kv))) (c_post c)
   | _, OpRecreate => true      (* a request may fail (unreadable or unparsable metadata ...): then only the frame is judged *)
   | _, _ => match snd (spec_run c) with Ok _ => false | Err _ => true end
+  end
   end.
 
 Definition branch_of (c : case) : N :=
